@@ -54,13 +54,13 @@ type c05World struct {
 func (w *c05World) us() int64 { return time.Since(w.t0).Microseconds() }
 
 type c05Half struct {
-	mu         sync.Mutex
-	q          [][]byte
-	eof        bool // writer shut its write side
-	rst        bool // writer reset the connection
-	readerGone bool // reader closed: writes fail
+	mu           sync.Mutex
+	q            [][]byte
+	eof          bool // writer shut its write side
+	rst          bool // writer reset the connection
+	readerGone   bool // reader closed: writes fail
 	lastWithTerm bool // the read returning the last queued segment also reports the end
-	notify     chan struct{}
+	notify       chan struct{}
 }
 
 func newC05Half() *c05Half { return &c05Half{notify: make(chan struct{})} }
